@@ -100,15 +100,29 @@ def theorems_of(lean_dir, module):
     return names
 
 
-def forbidden_tokens(lean_dir):
+def import_closure(lean_dir, modules):
+    """Project files reachable from `modules` through `import TraitsVerif.…` lines."""
+    seen, todo = [], list(modules)
+    while todo:
+        m = todo.pop()
+        if m in seen or not m.startswith("TraitsVerif"):
+            continue
+        path = os.path.join(lean_dir, m.replace(".", "/") + ".lean")
+        if not os.path.exists(path):
+            continue
+        seen.append(m)
+        for mm in re.finditer(r"^\s*(?:public\s+)?import\s+(TraitsVerif[\w.]*)", open(path).read(), flags=re.M):
+            todo.append(mm.group(1))
+    return seen
+
+
+def forbidden_tokens(lean_dir, modules):
     bad = []
-    for root, _, files in os.walk(os.path.join(lean_dir, "TraitsVerif")):
-        for f in files:
-            if f.endswith(".lean"):
-                p = os.path.join(root, f)
-                for i, line in enumerate(strip_comments(open(p).read()).splitlines(), 1):
-                    if FORBIDDEN.search(line):
-                        bad.append("%s: %s" % (os.path.relpath(p, lean_dir), line.strip()[:120]))
+    for m in import_closure(lean_dir, modules):
+        p = os.path.join(lean_dir, m.replace(".", "/") + ".lean")
+        for i, line in enumerate(strip_comments(open(p).read()).splitlines(), 1):
+            if FORBIDDEN.search(line) or re.search(r"^\s*partial\s+def", line) and "/Driver/" not in p:
+                bad.append("%s: %s" % (os.path.relpath(p, lean_dir), line.strip()[:120]))
     return bad
 
 
@@ -159,7 +173,7 @@ def prove(pm, generated, changed, tier, scratch):
         ax = res["axioms"].get(t)
         if ax is None or not set(ax) <= ALLOWED_AXIOMS:
             res["failed"].append(t)
-    bad = forbidden_tokens(lean_dir)
+    bad = forbidden_tokens(lean_dir, pm.PROPS_MODULES)
     res["forbidden"] = bad
     if bad:
         res["failed"].append("<forbidden-token>")
